@@ -203,7 +203,8 @@ def stmtUnfused (D : Dispatch) (m : Mode) (op : Op) (kx : Kind) (nx : Int) (c : 
   store m kx (binop D m.isStrict op (.var kx nx) c)
 
 /-- incrementByteCode: the fused form of Load x; Push c; Add; Store x (optimizer level ≥ 2).
-    It normalises like Add and then sets the variable directly (no checkType). -/
+    It normalises like Add and stores the result through the same type boundary as Store
+    (Context.checkType), so a promoted result is converted back in relaxed mode. -/
 def increment (D : Dispatch) (m : Mode) (kx : Kind) (nx : Int) (c : Operand) : Res :=
   let strict := m.isStrict
   if strict && !c.isConst && (Operand.var kx nx).kindOrd != c.kindOrd then .err .typeMismatch
@@ -211,6 +212,6 @@ def increment (D : Dispatch) (m : Mode) (kx : Kind) (nx : Int) (c : Operand) : R
     match normalize (.var kx nx) c strict with
     | .err e => .err e
     | .floats => .float
-    | .ints k x y => if D.incr.contains k then .ok k (wrap k (x + y)) else .err .invalidType
+    | .ints k x y => if D.incr.contains k then store m kx (.ok k (wrap k (x + y))) else .err .invalidType
 
 end EgoVerif.C03
